@@ -17,7 +17,7 @@ AttrTable == {
   [a |-> "shortDescription", vals |-> {"", "text"}, womit |-> {""}, rdefault |-> ""],
   [a |-> "LongDescription", vals |-> {"", "text"}, womit |-> {""}, rdefault |-> ""],
   [a |-> "Unit", vals |-> {"", "m/s"}, womit |-> {""}, rdefault |-> ""],
-  [a |-> "LinearAdjustment", vals |-> {"none", "8x+0", "8x-8", "0x+16"}, womit |-> {"none"}, rdefault |-> "none"],
+  [a |-> "LinearAdjustment", vals |-> {"none", "8x+0", "8x-8", "0x+16", "1x+3", "1x+0"}, womit |-> {"none"}, rdefault |-> "none"],
   [a |-> "DefaultCalibrator", vals |-> {"none", "poly", "spline"}, womit |-> {"none"}, rdefault |-> "none"],
   [a |-> "ContextCalibratorList", vals |-> {"none", "one", "two"}, womit |-> {"none"}, rdefault |-> "none"],
   [a |-> "TimeEncoding.scale/offset", vals |-> {"none", "offset+scale", "scale"}, womit |-> {"none"}, rdefault |-> "none"],
